@@ -67,6 +67,18 @@ CHECKS['C15'] = dict(text='Symbolic execution of the singleton / extern-value ha
              'declared numbers with the declared type and visibility; a missing address, an unresolvable type or a negative number must be rejected.',
              note='semantic stage only: the emitted accessor bodies (pointer indirection, None on null) dereference absolute addresses and cannot be executed by the engines available here; <= 2 extern values',
              design='4/C15')
+TECH2 = 'symbolic execution of pyxis MIR (pyxsym) with z3 deciding path feasibility and that each leaf covers exactly one description; outcome compared with a reference model; natively replayed'
+CHECKS['C06'] = dict(text='Symbolic execution of vftable::build / resolve_regions over every inheritance shape of the bounded family (two bases with/without tables, '
+             'derived type with no / prefix-repeating / non-repeating block, eight single-slot mutations of the prefix, second-level derived type): '
+             'for each leaf z3 shows the path condition admits exactly one description, whose outcome must equal the reference model: mutations '
+             'rejected, derived tables share the first base\'s pointer (no own field, base_field, table type), own table => one private pointer field at offset 0.',
+             note='depth 2, <= 2 bases per type (statement: depth 4, 3 bases); the reference model is Python evaluated per leaf; the emitted vftable() accessor is not executed',
+             design='4/C06', technique=TECH2)
+CHECKS['C07'] = dict(text='Same exploration with impl blocks, visibility and name clashes as the varying dimensions: the associated-function list of every type must equal the '
+             'reference (public base functions and non-first-base virtual functions re-exposed under their name or <field>_<name>, forwarding body '
+             'Field{base field, original}, private ones hidden, signature preserved, own functions last).',
+             note='semantic stage only: forwarding body text, AsRef/AsMut emission and the run-time receiver address (base sub-object offset) are not executed; depth 2, <= 2 bases',
+             design='4/C07', technique=TECH2)
 NA = {}
 ALL = [json.loads(l)['id'] for l in open('properties.jsonl')]
 for p in ALL:
